@@ -140,7 +140,8 @@ class Template:
                         raise LiquidSyntaxError(
                             f"unexpected '{err}'",
                             token=err.token or node.token,
-                            template_name=self.full_name(),
+                            template_name=(err.token and err.template_name)
+                            or self.full_name(),
                         ) from err
                     raise
                 except LiquidError as err:
@@ -174,7 +175,8 @@ class Template:
                         raise LiquidSyntaxError(
                             f"unexpected '{err}'",
                             token=err.token or node.token,
-                            template_name=self.full_name(),
+                            template_name=(err.token and err.template_name)
+                            or self.full_name(),
                         ) from err
                     raise
                 except LiquidError as err:
